@@ -194,6 +194,10 @@ func (ix *BM25SearchIndex) Add(id uint32, text string) error {
 		ix.removeInternal(id)
 	}
 
+	// A re-added doc is live again: drop any pending soft delete for this ID,
+	// otherwise searches would skip it and the next Flush would remove it
+	ix.deletedDocs.Remove(id)
+
 	normText := normalize(text)
 	tokens := tokenize(normText)
 	docLen := len(tokens)
